@@ -66,7 +66,8 @@ let holds _ case impl =
     let old_fees = z_of_string (f "old") in
     let thr_z = (match thr with None -> Model.mAX_MONEY | Some z -> z_of_zt z) in
     let interrupted = f "int" = "1" and late = f "late" = "1" in
-    let changed = int_of_string (f "blocks") > 0 || f "race" = "1" in
+    let changed = int_of_string (f "blocks") > 0 in
+    let race = f "race" = "1" in
     let min20 = int_of_string (f "tipage") > 20 * 60 * 1000 in
     let r = if f "res" = "none" then None
             else Some ((if f "same" = "1" then z_of_int 10 else z_of_int 11), z_of_string (f "fees")) in
@@ -74,7 +75,9 @@ let holds _ case impl =
     if Model.returned_ok (z_of_int 10) old_fees thr_z min20 r tip_now interrupted late changed then "ok"
     else (match r with
           | None -> "fail nothing was returned although the wait was neither interrupted nor past its deadline"
-          | Some _ -> if f "ontip" <> "1" then "fail the returned template is not built on the current tip"
+          | Some (_, fees) -> if f "ontip" <> "1" then "fail the returned template is not built on the current tip"
+                      else if race then "fail same-tip-after-connect-disconnect-race: a template on the old tip with fees " ^ string_of_z fees ^
+                                        " (old " ^ f "old" ^ ") was returned regardless of the threshold: a block was connected and disconnected again before the waiter got cs_main"
                       else "fail a same-tip template was returned without the fee increase (and no tip change, no 20-minute rule)")
   with Failure m -> "fail unparsable: " ^ m
 
